@@ -183,6 +183,43 @@ fn make_event(m: &sim::Model, inv: &crate::maps::Inv, rng: &mut Rng, kind: u64, 
             }
             "PWB message with a repeated chunk id instead of a missing one"
         }
+        15 => {
+            // duplicated TRG whose extra copy carries the most neutral-looking content (timestamp 0)
+            let mut t = crate::enc::Trg::simple(0, 0);
+            t.pulser = 0;
+            let at = if idx % 2 == 0 { 0 } else { banks.len() };
+            banks.insert(at, ("ATAT".into(), t.encode()));
+            "two TRG banks, one with timestamp 0"
+        }
+        16 => {
+            // a second PWB message that names the same chip *inside* its payload but travels under another chip label in
+            // its chunk headers (so it forms a group of its own); it carries all but the first channel of the original
+            let mut done = false;
+            let mut groups: Vec<(String, u8)> = banks.iter().filter(|b| b.0.starts_with("PC")).map(|b| (b.0.clone(), b.1[10])).collect();
+            groups.sort();
+            groups.dedup();
+            for (nm, chip) in groups.clone() {
+                let mut cs: Vec<alpha_g_detector::padwing::Chunk> = banks.iter().filter(|b| b.0 == nm && b.1[10] == chip).map(|b| super::must_chunk(&b.1)).collect();
+                cs.sort_by_key(|c| c.chunk_id());
+                let payload: Vec<u8> = cs.iter().flat_map(|c| c.payload().to_vec()).collect();
+                let Some(mut p) = crate::refs::pwb_ref(&payload) else { continue };
+                let Some(label) = (0..4u8).find(|l| !groups.contains(&(nm.clone(), *l))) else { continue };
+                if p.channels.len() < 3 {
+                    continue;
+                }
+                let (first, _) = p.channels.remove(0);
+                p.sent_mask &= !(1u128 << (first - 1));
+                for c in p.chunks(cs[0].board_id().device_id(), label, 700) {
+                    banks.push((nm.clone(), c.encode()));
+                }
+                done = true;
+                break;
+            }
+            if !done {
+                banks.retain(|b| b.0 != "ATAT");
+            }
+            "two PWB messages for one chip under different chunk labels"
+        }
         _ => {
             // a wire bank present twice, both long, different content
             let w = *wires.keys().next().unwrap();
@@ -214,7 +251,7 @@ fn run(ctx: &mut Ctx) {
         }
         ctx.cur_case = i;
         let mut rng = ctx.rng_for("events", i);
-        let (banks, what) = make_event(&m, &inv, &mut rng, i % 15, i);
+        let (banks, what) = make_event(&m, &inv, &mut rng, i % 17, i);
         let groups = {
             let mut g: Vec<&str> = banks.iter().filter(|b| b.0.starts_with("PC")).map(|b| &b.0[..]).collect();
             g.sort();
